@@ -183,8 +183,10 @@ PROPS = {
         "trusted_base": ["modelled: SendBlocksProofProcess::execute, SendTransactionsProofProcess::execute, check_block_hashes / check_tx_hashes, fetch tables, add_block acceptance"],
     },
     "C16": {
-        "ops": [("c02", "RunC02", {"quick": 60, "thorough": 1500})],
-        "rule": "same histories as C02: the fetch status machine (added / fetching / fetched / not_found) through the real RPCs, ticks, answers, rejections, disconnects; "
+        "ops": [("c02", "RunC02", {"quick": 60, "thorough": 1500}), ("c08", "RunC08", {"quick": 3, "thorough": 30})],
+        "rule": "op c08 (whole-client histories with a fork switch that rolls back and re-indexes): after every run get_transaction_with_header of every generated "
+                "transaction must name a block that contains it (class C16-transaction-paired-with-wrong-block); op c02 withheld-answer scenario; "
+                "same histories as C02: the fetch status machine (added / fetching / fetched / not_found) through the real RPCs, ticks, answers, rejections, disconnects; "
                 "after every history closing rounds with an honest proven peer must leave every requested hash fetched (on the chain) or reported missing (unknown)",
         "assumptions": ["as C02"],
         "trusted_base": ["modelled: fetch_header / fetch_transaction status, FetchInfo transitions, fetch_headers_txs assignment, remove_peer"],
